@@ -122,7 +122,7 @@ func c04ShippedRun(c c04Shipped) error {
 				wordDraw = true
 			}
 		}
-		if !wordDraw {
+		if !wordDraw && n > 1 {
 			return fmt.Errorf("one-word password drew %v, none of them over the %d words of the list", o.S.Draws, n)
 		}
 		a := o.Pw.String()
